@@ -74,8 +74,13 @@ contract(
 contract(
     target=f"{MV}::get_anomalies",
     params={"anomaly_starts": "nreal[n]"},
-    ghost_params={"m": "int", "M": "int"},
+    # V / PP / GC: the caller's value function and gains (run_base_capa: V[T] = CG(T), PP[t] = penalised point saving at t, GC[a, b] = penalised
+    # collective saving of [a, b)); the back-pointers are value-carrying: each one explains V[u+1] from an earlier value
+    ghost_params={"m": "int", "M": "int", "V": "real[n+1]", "PP": "real[n]", "GC": "real[n+1,n+1]"},
     requires=["n >= 0", "m >= 2", "M >= m",
+              "forall(range(n), lambda u: (isnan_(anomaly_starts[u]) and V[u + 1] == V[u]) or (not isnan_(anomaly_starts[u]) and "
+              "((optval(anomaly_starts[u]) == u and V[u + 1] == V[u] + PP[u]) or (0 <= optval(anomaly_starts[u]) and m <= u + 1 - optval(anomaly_starts[u]) and "
+              "V[u + 1] == V[optval(anomaly_starts[u])] + GC[optval(anomaly_starts[u]), u + 1]))), trig=V[u + 1])",      # used where V[u+1] is mentioned only
               "forall(range(n), lambda u: isnan_(anomaly_starts[u]) or isint_(optval(anomaly_starts[u])))",
               "forall(range(n), lambda u: isnan_(anomaly_starts[u]) or optval(anomaly_starts[u]) == u or "
               "(0 <= optval(anomaly_starts[u]) and m <= u + 1 - optval(anomaly_starts[u]) and u + 1 - optval(anomaly_starts[u]) <= M))"],
@@ -89,9 +94,12 @@ contract(
         "disjoint": "forall(range(len(result[0])), range(len(result[0])), lambda q, r: implies(q < r, result[0][r][1] <= result[0][q][0])) and "
                     "forall(range(len(result[1])), range(len(result[1])), lambda q, r: implies(q < r, result[1][r][1] <= result[1][q][0])) and "
                     "forall(range(len(result[0])), range(len(result[1])), lambda q, r: result[0][q][1] <= result[1][r][0] or result[1][r][1] <= result[0][q][0])",
+        # completeness, as a total: the gains of the reported anomalies add up to V[n] - V[0] (every link of the back-pointer chain is reported)
+        "total": "V[n] == V[0] + LSUM('coll', result[0], len(result[0]), lambda x: GC[x[0], x[1]]) + LSUM('pt', result[1], len(result[1]), lambda x: PP[x[0]])",
     },
     invariants={"loop#1": {
         "i_range": "-1 <= i and i < n",
+        "total": "V[n] == V[i + 1] + LSUM('coll', collective_anomalies, len(collective_anomalies), lambda x: GC[x[0], x[1]]) + LSUM('pt', point_anomalies, len(point_anomalies), lambda x: PP[x[0]])",
         "collective": "forall(range(len(collective_anomalies)), lambda q: i + 1 <= collective_anomalies[q][0] and collective_anomalies[q][1] <= n and "
                       "m <= collective_anomalies[q][1] - collective_anomalies[q][0] and collective_anomalies[q][1] - collective_anomalies[q][0] <= M and "
                       "not isnan_(anomaly_starts[collective_anomalies[q][1] - 1]) and optval(anomaly_starts[collective_anomalies[q][1] - 1]) == collective_anomalies[q][0])",
@@ -154,6 +162,9 @@ contract(
         "disjoint": "forall(range(len(result[1])), range(len(result[2])), lambda q, r: result[1][q][1] <= result[2][r][0] or result[2][r][1] <= result[1][q][0]) and "
                     "forall(range(len(result[1])), range(len(result[1])), lambda q, r: implies(q < r, result[1][r][1] <= result[1][q][0])) and "
                     "forall(range(len(result[2])), range(len(result[2])), lambda q, r: implies(q < r, result[2][r][1] <= result[2][q][0]))",
+        # C03: re-evaluating the reported anomalies under the same penalties gives exactly the final score
+        "reevaluation": f"CG({TC}, {TP}, n) == LSUM('coll', result[1], len(result[1]), lambda x: {PSc('x[0]', 'x[1]')}) + "
+                        f"LSUM('pt', result[2], len(result[2]), lambda x: {PSp('x[0]')})",
     },
     invariants={
         "loop#1": {
@@ -208,7 +219,9 @@ contract(
     call_ghosts={
         "opt_point_saving, _, _ = optimise_savings(*": {"optimise_savings": {"tok": TP, "cs": "t_array", "ce": "t_array + 1"}},
         "opt_collective_saving, opt_start, candidate_savings = optimise_savings(*": {"optimise_savings": {"tok": TC, "cs": "starts", "ce": "ends"}},
-        "collective_anomalies, point_anomalies = get_anomalies(*": {"get_anomalies": {"m": MM, "M": MX}},
+        "collective_anomalies, point_anomalies = get_anomalies(*": {"get_anomalies": {
+            "m": MM, "M": MX, "V": f"lam('real', n + 1, lambda T: CG({TC}, {TP}, T))", "PP": f"lam('real', n, lambda v: {PSp('v')})",
+            "GC": f"lam('real', n + 1, n + 1, lambda a, b: {PSc('a', 'b')})"}},
     },
     props=["C03", "C04"],
 )
